@@ -67,7 +67,7 @@ def gen_wake(rng, thorough=False):
     k = rng.choice([2, 2, 3, 4])
     l = rng.choice([k, k, k + 1, 4]) if k < 4 else 4
     l = max(l, k)
-    rounds = rng.choice([300, 500, 800]) if thorough else rng.choice([150, 200, 300])
+    rounds = rng.choice([300, 400, 600]) if thorough else rng.choice([150, 200, 300])
     # drv 0 = io_uring (the important one)
     return [4, l, rng.choice([20, 50, 100]), rng.choice([0, 0, 0, 1]), k, rounds, rng.choice([0, 0, 100, 500, 1000, 2000])]
 
